@@ -11,7 +11,10 @@ use std::path::{Path, PathBuf};
 use std::sync::Mutex;
 use std::time::{Duration, Instant};
 
-pub const VERIF_DIR: &str = "/verif";
+/// Root of the verification tree (findings, evidence, out). Registered commands run in /verif; background sweeps from a snapshot set VERIF_HOME.
+pub fn verif_dir() -> String {
+    std::env::var("VERIF_HOME").unwrap_or_else(|_| "/verif".to_string())
+}
 
 #[derive(Clone, Copy, Debug, PartialEq, Eq, Serialize, Deserialize)]
 #[serde(rename_all = "lowercase")]
@@ -172,7 +175,7 @@ pub struct Findings {
 
 impl Findings {
     pub fn load() -> Findings {
-        let p = Path::new(VERIF_DIR).join("findings/known.json");
+        let p = Path::new(&verif_dir()).join("findings/known.json");
         match std::fs::read_to_string(&p) {
             Ok(s) => Findings {
                 all: serde_json::from_str(&s).unwrap_or_else(|e| {
@@ -251,7 +254,7 @@ pub struct Replay {
 }
 
 pub fn write_replay(r: &Replay) -> PathBuf {
-    let dir = Path::new(VERIF_DIR).join("out/replays");
+    let dir = Path::new(&verif_dir()).join("out/replays");
     let _ = std::fs::create_dir_all(&dir);
     let h = hash_json(&r.case);
     let p = dir.join(format!("{}-{}-{:016x}.json", r.property, r.kind, h));
@@ -590,7 +593,7 @@ impl ShardCtx {
                 }
                 continue;
             };
-            let p = Path::new(VERIF_DIR).join("findings").join(w);
+            let p = Path::new(&verif_dir()).join("findings").join(w);
             let r: Replay = match std::fs::read_to_string(&p).ok().and_then(|s| serde_json::from_str(&s).ok()) {
                 Some(r) => r,
                 None => {
